@@ -391,6 +391,10 @@ func defaultPure(e *Event) bool {
 	if strings.HasPrefix(e.Callee, "fmt.") || strings.HasPrefix(e.Callee, "log.") || strings.HasPrefix(e.Callee, "(*log.") || strings.HasPrefix(e.Callee, "log/slog.") || strings.HasPrefix(e.Callee, "(*log/slog.") {
 		return true
 	}
+	// reading the clock changes nothing
+	if e.Callee == "time.Now" {
+		return true
+	}
 	return pureNames[e.Method]
 }
 
